@@ -24,7 +24,7 @@ MODULES = ["SqlframeModel.Codec.C01", "SqlframeModel.Props.C01"]
 GEN = ["Operations", "Methods", "Clauses"]
 SOURCES = ["SqlframeModel/Props/C01.lean", "SqlframeModel/Lemmas/C01.lean", "SqlframeModel/Impl/DataFrame.lean", "SqlframeModel/Impl/C01Scope.lean"]
 
-KINDS = ["where", "select", "withColumn", "withColumnRenamed", "drop", "distinct", "orderBy", "limit", "fillna", "replace", "toDF", "dropna"]
+KINDS = ["where", "select", "withColumn", "withColumnRenamed", "drop", "distinct", "orderBy", "limit", "fillna", "replace", "toDF", "dropna", "unpivot"]
 NEW_NAMES = ["u", "v", "w", "p", "q"]
 BIG = 50
 
@@ -153,6 +153,19 @@ def gen_step(rng: random.Random, kind: str, schema: t.Dict[str, str], st: t.Dict
         if mode < 0.7:
             return {"k": "dropna", "howAll": True, "thresh": None, "sub": sub}
         return {"k": "dropna", "howAll": False, "thresh": rng.randint(1, len(sub)), "sub": sub}
+    if kind == "unpivot":
+        ints = [c for c in cols if schema[c] == "int"]
+        if len(ints) < 1 or "var" in cols or "val" in cols:
+            return None
+        nv = rng.randint(1, len(ints))
+        vals = rng.sample(ints, nv)
+        rest = [c for c in cols if c not in vals]
+        ids = rng.sample(rest, rng.randint(0, len(rest))) if rest else []
+        items = [(c, schema[c]) for c in ids] + [("var", "str"), ("val", "int")]
+        schema.clear()
+        schema.update(items)
+        st["total"] = False
+        return {"k": "unpivot", "ids": ids, "vals": vals, "var": "var", "val": "val"}
     raise ValueError(kind)
 
 
@@ -204,6 +217,8 @@ def step_to_lean(s: dict) -> t.Any:
         return {"toDF": {"names": s["names"]}}
     if k == "dropna":
         return {"dropna": {"howAll": s["howAll"], "thresh": s["thresh"], "sub": s["sub"]}}
+    if k == "unpivot":
+        return {"unpivot": {"ids": s["ids"], "vals": s["vals"], "var": s["var"], "val": s["val"]}}
     raise ValueError(k)
 
 
@@ -244,6 +259,8 @@ def show_step(s: dict) -> str:
         return "toDF(" + ", ".join(map(repr, s["names"])) + ")"
     if k == "dropna":
         return f"dropna(how={'all' if s['howAll'] else 'any'!r}, thresh={s['thresh']}, subset={s['sub']})"
+    if k == "unpivot":
+        return f"unpivot({s['ids']}, {s['vals']}, {s['var']!r}, {s['val']!r})"
     return str(s)
 
 
@@ -303,6 +320,8 @@ def apply_step(df: t.Any, s: dict, F: t.Any) -> t.Any:
         return df.toDF(*s["names"])
     if k == "dropna":
         return df.dropna(how="all" if s["howAll"] else "any", thresh=s["thresh"], subset=s["sub"])
+    if k == "unpivot":
+        return df.unpivot(s["ids"], s["vals"], s["var"], s["val"])
     raise ValueError(k)
 
 
@@ -342,6 +361,8 @@ def order_checked(c: dict) -> bool:
             schema = [x for x in schema if x not in s["ns"]]
         elif k == "toDF":
             schema = list(s["names"])
+        elif k == "unpivot":
+            schema = s["ids"] + [s["var"], s["val"]]
     if len(steps[i]["keys"]) != len(schema):
         return False
     return all(s["k"] in ("limit",) for s in steps[i + 1 :])
@@ -409,6 +430,10 @@ def well_typed(c: dict) -> bool:
                 return False
         elif k == "toDF":
             types = {n: ty for n, ty in zip(s["names"], types.values())}
+        elif k == "unpivot":
+            if any(types.get(v) != "int" for v in s["vals"]):
+                return False
+            types = {**{c: types[c] for c in s["ids"]}, s["var"]: "str", s["val"]: "int"}
     return True
 
 
@@ -450,6 +475,12 @@ def valid(c: dict) -> bool:
             if len(s["names"]) != len(cols) or len(set(s["names"])) != len(s["names"]):
                 return False
             cols = list(s["names"])
+        elif k == "unpivot":
+            if not s["vals"] or not set(s["ids"] + s["vals"]) <= set(cols) or set(s["ids"]) & set(s["vals"]):
+                return False
+            if len(set(s["ids"] + [s["var"], s["val"]])) != len(s["ids"]) + 2:
+                return False
+            cols = s["ids"] + [s["var"], s["val"]]
         elif k == "dropna":
             if not s["sub"] or not set(s["sub"]) <= set(cols) or "num_nulls" in cols:
                 return False
@@ -505,6 +536,8 @@ def has_risky_limit(c: dict) -> bool:
                 names = [x for x in names if x not in s["ns"]]
             elif k == "toDF":
                 names = list(s["names"])
+            elif k == "unpivot":
+                names = s["ids"] + [s["var"], s["val"]]
     return False
 
 
@@ -531,6 +564,14 @@ def cases_for(ctx: Ctx) -> t.List[dict]:
                 if c:
                     c["origin"] = f"exhaustive-kinds-L{L}"
                     cases.append(c)
+    # targeted family: consecutive limits (merged inside one block) for every pair from a grid, on a 13-row table
+    grid = [0, 1, 2, 5, 7, 10, 12, 50]
+    rows13 = [[i % 7, (i * 5) % 11] for i in range(13)]
+    for a in grid:
+        for b in grid:
+            cases.append({"schema": {"x": "int", "y": "int"}, "rows": rows13, "origin": "limit-pairs",
+                          "steps": [{"k": "orderBy", "keys": [{"name": "x", "desc": False, "nullsFirst": True}, {"name": "y", "desc": True, "nullsFirst": False}]},
+                                    {"k": "limit", "n": a}, {"k": "limit", "n": b}]})
     n_rand = 4000 if ctx.thorough else 300
     for _ in range(n_rand):
         L = ctx.rng.randint(3, 10)
